@@ -148,9 +148,9 @@ def amount_values(rng, big):
         for dd in (-1, 0, 1):
             if 0 <= 10 ** k + dd <= MAX:
                 vals_.append(10 ** k + dd)
-    for _ in range(1500 if big else 150):
+    for _ in range(3000 if big else 150):
         vals_.append(rng.randrange(MAX + 1))
-    for _ in range(600 if big else 60):
+    for _ in range(1200 if big else 60):
         vals_.append(rng.randrange(16777216, 21000000) * COIN + rng.randrange(COIN))
     for _ in range(300 if big else 40):
         vals_.append(rng.randrange(COIN))
@@ -503,12 +503,12 @@ def generate(rng, tier, boost):
     for b in [b'', b'\x00', b'\xff', b'\x00' * 32, b'\xff' * 32, bytes(range(32)), bytes(range(255, 223, -1)), b'\x01' + b'\x00' * 31,
               bytes(range(256))]:
         cases.append((1902, [b]))
-    for _ in range(1500 if big else 200):
+    for _ in range(3000 if big else 200):
         cases.append((1902, [rbytes(rng, rng.choice([32, 32, 32, 32, 20, 1, 31, 33, 64, 80]))]))
     for t in ['', '0', '00', 'zz', '0g', 'g0', '00ff', '00FF', '00fF', 'abc', ' 00', '00 ', '0x00', 'hé', 'éé', '00' * 32,
               'FF' * 32, '000000000019d6689c085ae165831e934ff763ae46a2a6c172b3f1b60a8ce26f', '0' * 63, '0' * 65, '\n00', '0-', '+0']:
         cases.append((1903, [t.encode('utf8')]))
-    for _ in range(1500 if big else 200):
+    for _ in range(3000 if big else 200):
         h = hexs(rng, rbytes(rng, rng.choice([32, 32, 32, 20, 1, 33])))
         r = rng.random()
         if r < 0.1:
@@ -535,11 +535,11 @@ def generate(rng, tier, boost):
             for call in ([0, b'ping', []], [8, 5], [9], [10, b'\x11' * 32], [11, b'\x11' * 32, 0], [11, b'\x11' * 32, 1],
                          [12, b'\x11' * 32, 0, []], [2, b'*', 1, 0], [4, b'\x11' * 32, 0, 1]):
                 cases.append((1905, [[[call, rep, []]]]))
-    for _ in range(1200 if big else 150):      # single calls, mostly errors / bad replies
+    for _ in range(3000 if big else 150):      # single calls, mostly errors / bad replies
         cases.append((1905, [[rand_op(rng, 0.35)]]))
-    for _ in range(3000 if big else 350):      # single calls, mostly results
+    for _ in range(6000 if big else 350):      # single calls, mostly results
         cases.append((1905, [[rand_op(rng, 0.9)]]))
-    for _ in range(2500 if big else 260):      # histories of 1..20 calls
+    for _ in range(5000 if big else 260):      # histories of 1..20 calls
         n = rng.randrange(1, 21)
         p = rng.choice([0.2, 0.5, 0.6, 0.8])
         cases.append((1905, [[rand_op(rng, p) for _ in range(n)]]))
